@@ -120,8 +120,13 @@ class Check:
             replay = os.path.join(rdir, "%s-%s.json" % (self.pid, self.tier))
             with open(replay, "w") as fh:
                 json.dump({"property": self.pid, "tier": self.tier, "violations": self.viol}, fh, indent=1, default=str)
-            for v in self.viol[:40]:
-                out.append("  violation %s at %s: %s" % (v["key"], v["site"], v["msg"]))
+            groups = {}
+            for v in self.viol:
+                groups.setdefault(v["key"], []).append(v)
+            for key, vs in list(groups.items())[:40]:
+                v = vs[0]
+                msg = v["msg"] if len(v["msg"]) < 900 else v["msg"][:900] + " …"
+                out.append("  violation %s at %s (%d instance%s): %s" % (key, v["site"], len(vs), "" if len(vs) == 1 else "s", msg))
             out.append("VIOLATION property=%s replay=%s" % (self.pid, replay))
         if self.broken and rc == 0:
             rc = 2
